@@ -64,8 +64,10 @@ fn main() -> std::io::Result<()> {
     let mut r = bam::io::Reader::from(&again[..]);
     let h = r.read_header()?;
     let mut e2 = RecordBuf::default();
-    r.read_record_buf(&h, &mut e2)?;
-    println!("... which decodes eagerly to data tags {:?}", e2.data().keys().map(|t| format!("{t:?}")).collect::<Vec<_>>());
+    match r.read_record_buf(&h, &mut e2) {
+        Ok(_) => println!("... which decodes eagerly to data tags {:?}", e2.data().keys().map(|t| format!("{t:?}")).collect::<Vec<_>>()),
+        Err(e) => println!("... which noodles' own read_record_buf rejects: {e:?}"),
+    }
 
     assert_eq!(eager_tags, lazy_tags, "D7: lazy data() differs from eager data()");
     Ok(())
